@@ -211,8 +211,10 @@ int main(){
 #ifdef USE_OMP
         else if(op == "exec" && ts.size() > 1 && ts[1] == "omptsm"){
             MockConfig mc; mc.schedule = int(kv(ts, "sched", 0)); mc.seed = (unsigned long)kv(ts, "seed", 1); mc.nworkers = int(kv(ts, "workers", 1));
-            mock_gomp_configure(mc);
+            MockConfig mcc = mc; mcc.nworkers = int(kv(ts, "cworkers", mc.nworkers));
+            mock_gomp_configure(mcc);
             std::unique_ptr<TbfOpenmpAlgorithmTsm<RealType, Kernel, SpaceIndex>> algo(new TbfOpenmpAlgorithmTsm<RealType, Kernel, SpaceIndex>(*cs.config, kv(ts, "upper", 2)));
+            mock_gomp_configure(mc);
             algo->execute(*cs.tree, int(kv(ts, "flags", 63)));
             flushLog();
         }
